@@ -295,6 +295,10 @@ def insert(field, out, intensity=False, weight=1):
             field_cmax -= out_cmax - out_shape[1]
             out_cmax = out_shape[1]
 
+        # nothing to do if the field lies wholly outside of the output array
+        if out_rmin >= out_rmax or out_cmin >= out_cmax:
+            return out
+
         out_slice = slice(out_rmin, out_rmax), slice(out_cmin, out_cmax)
         field_slice = slice(field_rmin, field_rmax), slice(field_cmin, field_cmax)
 
